@@ -19,6 +19,18 @@ NONTRIVIAL = ("a run is non-trivial if the scheduler had at least one decision p
               "or at least one injected fault fired; distinct = distinct (scenario, plan hash, event-log hash)")
 
 PROPS = {
+    "C15": {
+        "rule": "real client with 1..2 reactor threads and 1..4 connections per host; 1..3 issuing threads x 1..24 requests with unique tags and optional "
+                "time-outs against a scripted server whose per-request behaviour is drawn (immediate, delayed, byte-dribbled, chunked, close after the "
+                "response, never, answer only after the client's time-out; answers leave a connection in request order); thread stalls injected; plain "
+                "and ThreadSanitizer builds; " + NONTRIVIAL,
+        "probes_expected": ["behaviour-immediate", "behaviour-delayed", "behaviour-dribble", "behaviour-chunked", "behaviour-close-after", "behaviour-never",
+                            "behaviour-late", "connection-limit-reached", "reconnected", "request-never-sent"],
+        "assumptions": ["requests small enough for the socket buffer (the client's partial-send path is an unimplemented stub)",
+                        "a request without time-out behind a request that is never answered is not judged"],
+        "quick": {"batches": [("c15_client", "plain", 3000), ("c15_client", "tsan", 400)], "chunk": 50},
+        "thorough": {"batches": [("c15_client", "plain", 80000), ("c15_client", "tsan", 10000), ("c15_client", "asan", 10000)], "chunk": 200},
+    },
     "C03": {
         "rule": "1..4 hostile connections x 1..3 hostile messages each (50 % generated requests with 1..4 mutations, 40 % valid skeletons with hostile "
                 "header/cookie/media-type/number values and hostile chunk framing, 10 % raw garbage) in drawn segmentations beside a well-behaved "
@@ -139,6 +151,8 @@ PROPS = {
 
 SC_NOTE = "sequentially consistent memory; the simulated kernel follows Linux semantics; a clean batch is evidence, not proof"
 MANIFEST_TEXT = {
+    "C15": {"level": "seeded search over request batches, server behaviours, connection limits and schedules of issuing and client threads, with settlement, own-response, bounded-liveness, time-out and connection-limit oracles; ThreadSanitizer inside the simulation",
+            "design_ref": "4.12", "note": "violations on a connection that was reused after a time-out are attributed to that recorded finding (known_findings.json); everything else is reported; " + SC_NOTE},
     "C03": {"level": "seeded search over hostile byte strings x segmentations delivered through simulated sockets to the real endpoint, with memory-safety and undefined-behaviour detection by the sanitizers inside the simulation, hang detection by a wall-clock watchdog, and an allocation watch",
             "design_ref": "4.2", "note": "sanitizer coverage is that of AddressSanitizer/UBSan on the paths the inputs reach; " + SC_NOTE},
     "C01": {"level": "every single cut and the byte-by-byte delivery of each generated message enumerated completely, multi-cut segmentations sampled, differential against whole-at-once delivery; confirmed through simulated sockets against the real endpoint",
@@ -172,5 +186,4 @@ NOT_APPLICABLE = {
     "C18": "media type round trip: " + PURE,
     "C19": "address/port text forms: " + PURE,
     "C20": "Base64 / Basic credentials: " + PURE,
-    "C15": "check under construction (DESIGN.md section 9); not yet claimed",
 }
